@@ -734,7 +734,11 @@ impl World {
         self.inst = Some(inst);
         self.refresh().await;
         self.misdelivered("POST /clusters/migrations/auto/<name>/<n>", &[n, k], &eff);
-        if waited {
+        if waited && r.code() == "PROXY_NOT_SYNC" {
+            // some cluster proxy never answered UMCTL GETEPOCH (31 polls): the service gave up before its second phase,
+            // `auto_scale_out_node_number` was not run — there is no second model step
+            self.s.stats.count("auto.proxy_not_sync_after_first_phase");
+        } else if waited {
             out.push((format!("scale_out_num {} {}", n, k), self.fin(&r, "")));
         } else if r.ok() {
             let op = if is_migrating(&self.store, n) { 2 } else { 0 };
@@ -1157,7 +1161,10 @@ impl Gen {
                     let idx = if self.ordered { match self.rng.below(4) { 0 => " -".to_string(), 1 => format!(" {}", self.rng.below(9)), _ => format!(" {}", store.all_proxies.get(&a2).map(|p| p.index).unwrap_or(0)) } } else { String::new() };
                     return format!("add_proxy {} x{}:1 x{}:2 -{}", a2, self.next_proxy, self.next_proxy, idx); } }
                 18..=19 => { self.next_proxy += 1; let j = self.next_proxy; let idx = if self.ordered && self.rng.chance(3, 4) { format!(" {}", self.rng.below(30)) } else { String::new() };
-                    return format!("add_proxy {} y{}:1 y{}:2 -{}", self.rng.pick(&["nocolon", "a:b:c", ":", "h9:1", "[::1]:80"]), j, j, idx); }
+                    // on stand-ins only addresses that are refused: a registered proxy that is not a stand-in would make every
+                    // wait for proxy epochs / epoch recovery run into its 31 s resp. connect timeouts
+                    let a = if self.pool { *self.rng.pick(&["nocolon", "a:b:c", "[::1]:80"]) } else { *self.rng.pick(&["nocolon", "a:b:c", ":", "h9:1", "[::1]:80"]) };
+                    return format!("add_proxy {} y{}:1 y{}:2 -{}", a, j, j, idx); }
                 20..=27 => { let n = *self.rng.pick(&names); let k = *self.rng.pick(&[4i64, 4, 8, 8, 12, 16, 6, 0]);
                     let n = if self.exotic && self.rng.chance(1, 8) { *self.rng.pick(&["a.b", "c0?x", "c1#f", "c{2}", "sl/ash", "é", "toolongtoolongtoolongtoolongtoolong", "c%30"]) } else { n };
                     return format!("add_cluster {} {} -", n, k); }
